@@ -22,3 +22,23 @@ Proof. exact Misc.C15_compose. Qed.
 
 Example C15_example : convert Fnu (1#1000) Lum 1 2 3 5 == 5 * (1#1000) * 2 * (3 * 3).
 Proof. vm_compute. reflexivity. Qed.
+
+(* which units are accepted (UnitM): a unit is classified by its dimension alone - kg m2 s-3 (luminosity), kg s-2 (F_nu),
+   kg s-3 (flux) - and anything else is refused, on either side; for accepted units the laws above hold *)
+From Coq Require Import ZArith.
+From SedV Require Import UnitM.
+Theorem C15_family : forall u f, family_of u = Some f <-> (u_kg u, u_mt u, u_s u) = dims_of f /\ u_other u = 0%Z.
+Proof. exact family_of_spec. Qed.
+Theorem C15_refused : forall ua ub nu d x, convert_u ua ub nu d x = None <-> family_of ua = None \/ family_of ub = None.
+Proof. exact convert_u_refused. Qed.
+Theorem C15_units_roundtrip : forall ua ub nu d x y, ~ u_scale ua == 0 -> ~ u_scale ub == 0 -> ~ nu == 0 -> ~ d == 0 ->
+  convert_u ua ub nu d x = Some y -> exists z, convert_u ub ua nu d y = Some z /\ z == x.
+Proof. exact convert_u_roundtrip. Qed.
+Theorem C15_units_compose : forall ua ub uc nu d x y,
+  ~ u_scale ua == 0 -> ~ u_scale ub == 0 -> ~ u_scale uc == 0 -> ~ nu == 0 -> ~ d == 0 ->
+  convert_u ua ub nu d x = Some y -> family_of uc <> None ->
+  exists z w, convert_u ub uc nu d y = Some z /\ convert_u ua uc nu d x = Some w /\ z == w.
+Proof. exact convert_u_compose. Qed.
+Example C15_units_example : family_of u_mJy = Some Fnu /\ family_of u_erg_s = Some Lum /\ family_of u_K = None /\
+  convert_u u_mJy u_K 1 1 1 = None /\ convert_u u_mJy u_erg_s 2 3 5 <> None.
+Proof. exact unit_example. Qed.
